@@ -188,8 +188,23 @@ namespace json {
 		template<typename T>
 		variant &operator=(T const &other)
 		{
+			// other may be a part of the content that is replaced: copy it before that content is destroyed
+			variant tmp(other);
 			destroy();
-			create<T>(other);
+			create(tmp.type);
+			switch(type) {
+			case is_string:
+				get<std::string>().swap(tmp.get<std::string>());
+				break;
+			case is_object:
+				get<object>().swap(tmp.get<object>());
+				break;
+			case is_array:
+				get<array>().swap(tmp.get<array>());
+				break;
+			default:
+				memcpy(&m,&tmp.m,sizeof(m));
+			}
 			return *this;
 		}
 
